@@ -10,13 +10,17 @@
    acquisition) the successor of Binder!Succ with the same label is looked up in the real pre-state;
    a call the model would not make, or a post-state that differs from the predicted one, is
    recorded in `drift` (D_NoDrift: specification drift, exit 2 - never a violation).
+   Writes are strict. A READ (get / list) the model does not expect at that position is accepted as a
+   stuttering step (xr = 1, counted as extra_reads): reordering or adding reads is a legal refactoring; if such
+   a read is failed by injection the model cannot follow the error path: it stops predicting for that actor
+   (no drift) and the verdict is left to the property predicates.
    One initial state per Scenario line; handlers are total. *)
 EXTENDS Binder, Json
 
 Trace == ndJsonDeserialize("trace.ndjson")
 
-VARIABLES l, l0, drift
-tvars == <<vars, l, l0, drift>>
+VARIABLES l, l0, drift, xr
+tvars == <<vars, l, l0, drift, xr>>
 
 Starts == {i \in 1..Len(Trace) : Trace[i].ev = "Scenario"}
 Ev == Trace[l]
@@ -33,6 +37,7 @@ TraceInit ==
     /\ ctl = Ctl0
     /\ hist = <<>>
     /\ drift = IF Trace[i].st = InitStore(Trace[i].cfg) THEN <<>> ELSE << <<0, "init">> >>
+    /\ xr = 0
 
 OthersIdle(a) == \A b \in Actors \ {a} : L[b].t = "idle"
 
@@ -60,6 +65,7 @@ TraceStart ==
                      /\ ctl' = c1
   /\ S' = Ev.st
   /\ l' = l + 1
+  /\ xr' = 0
   /\ UNCHANGED <<cfg, mutex, hist, l0>>
 
 Match(lab) ==
@@ -78,14 +84,21 @@ TraceStep ==
      IN /\ a \in Actors
         /\ ctl' = ObserveCall(ctl, L[a], lab)
         /\ IF C = {}
-           THEN /\ L' = IF crash THEN [b \in Actors |-> L0] ELSE [L EXCEPT ![a].pc = "lost"]
-                /\ mutex' = IF crash THEN M0 ELSE mutex
-                /\ drift' = IF L[a].pc = "lost" THEN drift ELSE Note(<<"nomatch", L[a].pc>>)
+           THEN LET xread == Ev.ev = "Call" /\ Ev.verb \in {"get", "list"} /\ L[a].pc # "lost"
+                IN /\ L' = IF crash THEN [b \in Actors |-> L0]
+                           ELSE IF xread /\ Ev.res = "ok" THEN L          \* stutter: the model waits at its own next call
+                           ELSE [L EXCEPT ![a].pc = "lost"]
+                   /\ mutex' = IF crash THEN M0 ELSE mutex
+                   /\ xr' = IF xread THEN 1 ELSE 0
+                   /\ drift' = IF L[a].pc = "lost" THEN drift
+                               ELSE IF xread THEN (IF Ev.st = S THEN drift ELSE Note(<<"read-wrote", L[a].pc>>))
+                               ELSE Note(<<"nomatch", L[a].pc>>)
            ELSE \E r \in C :
                   /\ L' = IF crash THEN [b \in Actors |-> L0]
                           ELSE [L EXCEPT ![a] = IF r.L.t = "idle" THEN [L[a] EXCEPT !.pc = "ended"] ELSE r.L]
                   /\ mutex' = IF crash THEN M0 ELSE r.M
                   /\ drift' = IF r.S = Ev.st THEN drift ELSE Note(<<"store", L[a].pc>>)
+                  /\ xr' = 0
   /\ S' = Ev.st
   /\ l' = l + 1
   /\ UNCHANGED <<cfg, hist, l0>>
@@ -94,13 +107,14 @@ TraceEnd ==
   /\ Is("End")
   /\ LET a == Ev.a
      IN /\ a \in Actors
-        /\ ctl' = ObserveEnd([ctl EXCEPT !.check = 0, !.final = 0, !.evgroups = {}], L[a], OthersIdle(a))
+        /\ ctl' = ObserveEnd([ctl EXCEPT !.check = 0, !.final = 0, !.evgroups = {}], L[a], OthersIdle(a), Ev.st, Ev.err, Ev.requeue)
         /\ L' = [L EXCEPT ![a] = L0]
         /\ mutex' = [g \in Groups |-> IF mutex[g] = a THEN 0 ELSE mutex[g]]
         /\ drift' = IF L[a].pc = "ended" /\ Ev.st = S /\ (\A g \in Groups : mutex[g] # a) THEN drift
                     ELSE IF L[a].pc = "lost" THEN drift ELSE Note(<<"end", L[a].pc>>)
   /\ S' = Ev.st
   /\ l' = l + 1
+  /\ xr' = 0
   /\ UNCHANGED <<cfg, hist, l0>>
 
 TraceEnv ==
@@ -114,6 +128,7 @@ TraceEnv ==
   /\ ctl' = [ctl EXCEPT !.check = 0, !.final = 0, !.evgroups = {}]
   /\ S' = Ev.st
   /\ l' = l + 1
+  /\ xr' = 0
   /\ UNCHANGED <<cfg, hist, l0>>
 
 \* markers written by the harness: Check (no-op, the check-point flag comes from the End of a sync), Final
@@ -123,14 +138,15 @@ TraceMark ==
   /\ ctl' = IF Ev.ev = "Final" THEN [ctl EXCEPT !.final = 1] ELSE ctl
   /\ S' = Ev.st
   /\ l' = l + 1
+  /\ xr' = 0
   /\ UNCHANGED <<cfg, L, mutex, hist, l0>>
 
 TraceNext == TraceStart \/ TraceStep \/ TraceEnd \/ TraceEnv \/ TraceMark
 TraceSpec == TraceInit /\ [][TraceNext]_tvars
 
 (* ---- export of schedules from the model: fault schedules (c11), histories (c17 simulation) ---- *)
-GenInit == Init /\ l = 0 /\ l0 = 0 /\ drift = <<>>
-GenNext == Next /\ UNCHANGED <<l, l0, drift>>
+GenInit == Init /\ l = 0 /\ l0 = 0 /\ drift = <<>> /\ xr = 0
+GenNext == Next /\ UNCHANGED <<l, l0, drift, xr>>
 Emit11 == (ctl.phase = "done") => PrintT("SCHED " \o ToJson([cfg |-> cfg, faults |-> hist, k1 |-> ctl.k1, nrec |-> ctl.nrec]))
 \* c17 (simulation): print the history of a behaviour when nothing is left to do
 Emit17 == (~ENABLED GenNext) => PrintT("HIST " \o ToJson([cfg |-> cfg, steps |-> hist]))
